@@ -8,6 +8,13 @@ SELF = ('T', ('param', 1))
 NO_DATA = ('f64', '-1e39')
 
 
+def ne_other(s_):
+    """`record_size != X` (either way round) -> X"""
+    if s_[0] == 'bin' and s_[1] == 'Ne' and ('param', 2) in (s_[2], s_[3]):
+        return s_[3] if s_[2] == ('param', 2) else s_[2]
+    return None
+
+
 def size_terms(p):
     """comparison atoms of the path between the record size argument and computed sizes: [(op, size term, truth)]"""
     out = []
@@ -30,8 +37,8 @@ def size_terms(p):
             subs = [t[2], t[3]]
             if t[1] == 'BitAnd' and truth:
                 for s_ in subs:
-                    if s_[0] == 'bin' and s_[1] == 'Ne' and s_[2] == ('param', 2):
-                        out.append((s_[3], False))
+                    if ne_other(s_) is not None:
+                        out.append((ne_other(s_), False))
             elif t[1] == 'BitAnd' and not truth:
                 out.append(('either', subs))
     # (a != x) & (a != y) is false: a equals x or y; with one of them excluded elsewhere on the path the other holds
@@ -39,7 +46,7 @@ def size_terms(p):
     for x, subs in list(out):
         if x != 'either':
             continue
-        cands = [s_[3] for s_ in subs if s_[0] == 'bin' and s_[1] == 'Ne' and s_[2] == ('param', 2)]
+        cands = [ne_other(s_) for s_ in subs if ne_other(s_) is not None]
         if len(cands) == 2:
             a, b = cands
             if known.get(a) is False and b not in known:
@@ -292,9 +299,14 @@ def run(ctx):
         counter, limit = counter_and_limit(ps)
         def ge(p):
             for t, v in p.cons:
-                if t[0] == 'bin' and t[1] in ('Ge', 'Lt') and counter and t[2] == ('load', counter) and t[3] == ('load', limit):
-                    truth = (v != 0) if isinstance(v, int) else True
-                    return truth if t[1] == 'Ge' else (not truth)
+                pass
+            if not counter:
+                return None
+            c_, l_ = ('load', counter), ('load', limit)
+            if absint.holds(p.cons, '<=', l_, c_):
+                return True
+            if absint.holds(p.cons, '<', c_, l_):
+                return False
             return None
         ok = bool(nones) and all(ge(p) is True and not p.io() for p in nones) and bool(items) and all(ge(p) is False for p in items)
         ctx.ob("C03.stop", "end of sequential iteration", ok, "None iff counter >= declared length, with no read on that path", site=site,
@@ -335,7 +347,7 @@ def run(ctx):
                 form = {(): 0}
             if form is not None and list(form) == [()] and form[()] == 0:
                 # limit 0 (nothing to iterate) is right exactly when the declared length is not positive
-                neg = any(t[0] == 'bin' and t[1] in ('Gt', 'Le', 'Lt', 'Ge') and 'file_length' in absint.term_str(t)
+                neg = any(t[0] == 'bin' and t[1] in ('Le', 'Lt') and 'file_length' in absint.term_str(t)
                           and ('int', 0) in (t[2], t[3]) for t, v in p.cons)
                 if not neg:
                     ok = False
